@@ -98,18 +98,21 @@ Fixpoint scan_rbr (l : bytes) : option (bytes * bytes) :=
            end
   end.
 
+(* `while (prev_ch = p_ch, (p_ch = *++p) != ']')` with p at the last byte consumed; [k] is the next round *)
+Definition g_cond (k : byte -> bool -> bytes -> option (bool * bytes))
+  (m : bool) (pv : byte) (q' : bytes) : option (bool * bytes) :=
+  match q' with
+  | [] => None                                 (* p_ch = 0: the next round returns WM_ABORT_ALL *)
+  | r :: q'' => if beqb r cRBR then Some (m, q'') else k pv m q'
+  end.
+
 (* the do-while of the '[' case; [q] starts at p (so p_ch = hd0 q).  None = WM_ABORT_ALL *)
 Fixpoint g_brk (fuel : nat) (cf : bool) (t_ch : byte) (prev : byte) (matched : bool) (q : bytes)
   : option (bool * bytes) :=
   match fuel with
   | O => None
   | S fuel' =>
-      (* `while (prev_ch = p_ch, (p_ch = *++p) != ']')` with p now at the last byte consumed *)
-      let cond (m : bool) (pv : byte) (q' : bytes) : option (bool * bytes) :=
-        match q' with
-        | [] => None                                 (* p_ch = 0: next round returns WM_ABORT_ALL *)
-        | r :: q'' => if beqb r cRBR then Some (m, q'') else g_brk fuel' cf t_ch pv m q'
-        end in
+      let cond := g_cond (g_brk fuel' cf t_ch) in
       match q with
       | [] => None
       | c :: q1 =>
@@ -203,26 +206,29 @@ Fixpoint skip_stars (l : bytes) : bytes :=
   | [] => []
   end.
 
+(* after the star(s), with p = [nx]: the end-of-pattern test, the `* /` shortcut (one star before a
+   slash under WM_PATHNAME), then the `while (1)` loop *)
+Definition g_go (early : bool) (rec : bytes -> bytes -> res) (cf : bool) (tcur : bytes) (ms : bool) (nx : bytes) : step :=
+  match nx with
+  | [] => Done (if negb ms && has_slash tcur then NoMatch else Match)
+  | c :: r =>
+      if negb ms && beqb c cSLASH then
+        match after_slash tcur with
+        | Some t' => Cont (Some c) r t'
+        | None => Done NoMatch
+        end
+      else Done (g_star_loop early cf ms c (rec nx) tcur)
+  end.
+
 Definition g_star (early : bool) (rec : bytes -> bytes -> res) (cf pn : bool) (prev : option byte) (p1 tcur : bytes) : step :=
-  let go (ms : bool) (nx : bytes) : step :=
-    match nx with
-    | [] => Done (if negb ms && has_slash tcur then NoMatch else Match)
-    | c :: r =>
-        if negb ms && beqb c cSLASH then
-          match after_slash tcur with
-          | Some t' => Cont (Some c) r t'
-          | None => Done NoMatch
-          end
-        else Done (g_star_loop early cf ms c (rec nx) tcur)
-    end in
   if beqb (hd0 p1) cSTAR then
     let nx := skip_stars p1 in
-    if negb pn then go true nx
+    if negb pn then g_go early rec cf tcur true nx
     else if match prev with None => true | Some b => beqb b cSLASH end &&
             (beqb (hd0 nx) x00 || beqb (hd0 nx) cSLASH || (beqb (hd0 nx) cBSL && beqb (hd0 (tl nx)) cSLASH)) then
-      if beqb (hd0 nx) cSLASH && res_eqb (rec (tl nx) tcur) Match then Done Match else go true nx
-    else go false nx
-  else go (negb pn) p1.
+      if beqb (hd0 nx) cSLASH && res_eqb (rec (tl nx) tcur) Match then Done Match else g_go early rec cf tcur true nx
+    else g_go early rec cf tcur false nx
+  else g_go early rec cf tcur (negb pn) p1.
 
 (* ---- dowild ---------------------------------------------------------------------------------- *)
 
